@@ -7,10 +7,16 @@ channel payloads of `ChannelWrite` / copy-at-read of `ChannelRead`, and thread t
   from the `Value`, not from the thread), which is what `deep_copy(&mut new_thread)` relies on.
 * Objects are never collected in this model (collection is C06); a heap disappears as a whole when its
   thread is dropped (`impl Drop for VmGreenThread`).
-* `deepCopy` follows `Value::deep_copy` arm by arm — arrays through `get_array` (defect D7, repaired) —
-  with fuel standing for the host stack: a cyclic value runs out of fuel (the real code overflows the
-  stack, defect D24).  `none` is a fault: out of fuel, dangling pointer, or a tag that does not match
-  the object.
+* `deepCopyM` follows `Value::deep_copy_helper` (after fix 0cb8741 of defect D24): a map from the address
+  of every source object copied so far to its copy; the copy is allocated with placeholder fields and
+  recorded BEFORE its children are copied, then filled.  All captures of one `SpawnTask` share one map
+  (`spawnCopy`); a channel read starts with an empty map (`deepCopy`).  Fuel stands for the host stack;
+  the number of reachable source objects + 1 suffices (`deepCopyM_total`).  `none` is a fault: out of
+  fuel, dangling pointer, or a tag that does not match the object.
+  Two presentation choices, both invisible in the result: source objects are read from the heaps as they
+  were when the copy started (`S`) — nothing but freshly allocated copies is written during a copy, so
+  they are the same objects; and a copy's fields are written when the last child is done rather than one
+  by one — nothing reads a copy while the operation runs.
 -/
 namespace Abra.Heap
 
@@ -64,18 +70,20 @@ def setSlot (H : Heaps) (a : Addr) (i : Nat) (v : Val) : Heaps :=
     else H t'
 
 /-- copy a list of values left to right, threading the heaps (the `for field in …` loops) -/
-def copyList (cp : Heaps → Val → Option (Val × Heaps)) : Heaps → List Val → Option (List Val × Heaps)
+def copyListOld (cp : Heaps → Val → Option (Val × Heaps)) : Heaps → List Val → Option (List Val × Heaps)
   | H, [] => some ([], H)
   | H, v :: vs =>
     match cp H v with
     | none => none
     | some (v', H') =>
-      match copyList cp H' vs with
+      match copyListOld cp H' vs with
       | none => none
       | some (vs', H'') => some (v' :: vs', H'')
 
-/-- `Value::deep_copy(self, vm)` into thread `t`'s heap -/
-def deepCopy : Nat → Heaps → Nat → Val → Option (Val × Heaps)
+/-- `Value::deep_copy(self, vm)` into thread `t`'s heap AS IT WAS BEFORE fix 0cb8741 (no map of copies:
+    shared objects are copied once per reference, a cyclic value never finishes) — kept to document the
+    pre-repair behaviour (`C08_deepcopy_prerepair_*`). -/
+def deepCopyOld : Nat → Heaps → Nat → Val → Option (Val × Heaps)
   | 0, _, _, _ => none
   | f + 1, H, t, v =>
     match v with
@@ -83,21 +91,21 @@ def deepCopy : Nat → Heaps → Nat → Val → Option (Val × Heaps)
     | .struct a =>
       match lookup H a with
       | some (.struct fs) =>
-        match copyList (fun H v => deepCopy f H t v) H fs with
+        match copyListOld (fun H v => deepCopyOld f H t v) H fs with
         | some (fs', H') => some (.struct (alloc H' t (.struct fs')).1, (alloc H' t (.struct fs')).2)
         | none => none
       | _ => none
     | .array a =>
       match lookup H a with
       | some (.array es) =>
-        match copyList (fun H v => deepCopy f H t v) H es with
+        match copyListOld (fun H v => deepCopyOld f H t v) H es with
         | some (es', H') => some (.array (alloc H' t (.array es')).1, (alloc H' t (.array es')).2)
         | none => none
       | _ => none
     | .variant a =>
       match lookup H a with
       | some (.variant tag x) =>
-        match deepCopy f H t x with
+        match deepCopyOld f H t x with
         | some (x', H') => some (.variant (alloc H' t (.variant tag x')).1, (alloc H' t (.variant tag x')).2)
         | none => none
       | _ => none
@@ -199,6 +207,97 @@ def addrs : Nat → Heaps → Val → Option (List Addr)
       match lookup H a with
       | some (.chan _) => some [a]
       | _ => none
+
+/-! ### `deep_copy_helper` (after fix 0cb8741) -/
+
+def ptr? : Val → Option Addr
+  | .struct a | .array a | .variant a | .str a | .chan a => some a
+  | _ => none
+
+/-- the same tag on another address -/
+def retag : Val → Addr → Val
+  | .struct _, a => .struct a
+  | .array _, a => .array a
+  | .variant _, a => .variant a
+  | .str _, a => .str a
+  | .chan _, a => .chan a
+  | v, _ => v
+
+/-- does the tag of a pointer value match the kind of the object it points to (`check_type`) -/
+def tagOk : Val → Obj → Bool
+  | .struct _, .struct _ => true
+  | .array _, .array _ => true
+  | .variant _, .variant _ _ => true
+  | .str _, .str _ => true
+  | .chan _, .chan _ => true
+  | _, _ => false
+
+/-- the values an object holds -/
+def Obj.kids : Obj → List Val
+  | .struct fs => fs
+  | .array es => es
+  | .variant _ x => [x]
+  | .str _ => []
+  | .chan _ => []
+
+/-- the same object with other values in its slots -/
+def Obj.withKids : Obj → List Val → Obj
+  | .struct _, ks => .struct ks
+  | .array _, ks => .array ks
+  | .variant tag _, ks => .variant tag (ks.headD (.int 0))
+  | o, _ => o
+
+/-- `copies: HashMap<u64, Value>`: address of a source object ↦ its copy -/
+abbrev CopyMap := List (Addr × Val)
+
+def mlookup (M : CopyMap) (a : Addr) : Option Val :=
+  match M with
+  | [] => none
+  | (k, c) :: rest => if k = a then some c else mlookup rest a
+
+/-- overwrite an object (filling a copy's placeholder slots) -/
+def putObj (H : Heaps) (a : Addr) (o : Obj) : Heaps :=
+  fun t' => if t' = a.tid then (H a.tid).set a.idx o else H t'
+
+def copyListM (cp : Heaps → CopyMap → Val → Option (Val × Heaps × CopyMap)) :
+    Heaps → CopyMap → List Val → Option (List Val × Heaps × CopyMap)
+  | H, M, [] => some ([], H, M)
+  | H, M, v :: vs =>
+    match cp H M v with
+    | none => none
+    | some (v', H1, M1) =>
+      match copyListM cp H1 M1 vs with
+      | none => none
+      | some (vs', H2, M2) => some (v' :: vs', H2, M2)
+
+/-- `Value::deep_copy_helper(self, vm, copies)` into thread `t`'s heap; `S` = the heaps when the copy started -/
+def deepCopyM : Nat → Heaps → Heaps → CopyMap → Nat → Val → Option (Val × Heaps × CopyMap)
+  | 0, _, _, _, _, _ => none
+  | f + 1, S, H, M, t, v =>
+    match ptr? v with
+    | none => some (v, H, M)
+    | some a =>
+      match mlookup M a with
+      | some c => some (c, H, M)
+      | none =>
+        match lookup S a with
+        | none => none
+        | some obj =>
+          if tagOk v obj then
+            -- allocate the copy with placeholder slots and record it, then copy the children into it
+            let al := alloc H t (obj.withKids (obj.kids.map fun _ => Val.int 0))
+            match copyListM (fun H M w => deepCopyM f S H M t w) al.2 ((a, retag v al.1) :: M) obj.kids with
+            | none => none
+            | some (ks, H2, M2) => some (retag v al.1, putObj H2 al.1 (obj.withKids ks), M2)
+          else none
+
+/-- `Value::deep_copy(self, vm)`: a fresh map (used by `ChannelRead`) -/
+def deepCopy (fuel : Nat) (H : Heaps) (t : Nat) (v : Val) : Option (Val × Heaps) :=
+  (deepCopyM fuel H H [] t v).map fun r => (r.1, r.2.1)
+
+/-- `SpawnTask`: all captures are copied with ONE map, in order -/
+def spawnCopy (fuel : Nat) (H : Heaps) (t : Nat) (caps : List Val) : Option (List Val × Heaps) :=
+  (copyListM (fun H' M w => deepCopyM fuel H H' M t w) H [] caps).map fun r => (r.1, r.2.1)
 
 /-! ### channels carrying raw values (`ChannelWrite` stores the `Value` itself; `ChannelRead` copies at read time) -/
 
